@@ -8,7 +8,7 @@ mkdir -p $VERIF_SNAP/.work; cp -r /verif/.work/fam $VERIF_SNAP/.work/ 2>/dev/nul
 export WT_ROOT=${WT_ROOT:-/tmp/wt3}
 export RTAG=${RTAG:-r3}
 region() { R=$1
-  for K in 1 2 3 4; do
+  for K in 1 2 3 4 5; do
     M=$WT_ROOT/$R/MUT/$K; [ -f $M/README.md ] || continue
     P=$(grep -m1 -oP 'PROPERTY:?\s*\KC[0-9]+' $M/README.md)
     ALSO=$(head -5 $M/README.md | grep -oP 'C[0-9]{2}' | sort -u | grep -v "^$P$" | tr '\n' ' ')
